@@ -20,6 +20,11 @@ TOKEN = re.compile(r'''
 ''', re.X)
 
 
+# reserved words of the DOT language (case-insensitive): they cannot be used as
+# an unquoted ID (graph name, node id, attribute name or value)
+KEYWORDS = {'node', 'edge', 'graph', 'digraph', 'subgraph', 'strict'}
+
+
 def tokenize(text):
     tokens = []
     i, n = 0, len(text)
@@ -104,6 +109,8 @@ class Parser:
         return tok
 
     def is_id(self, tok):
+        if tok[0] == 'id' and tok[1].lower() in KEYWORDS:
+            raise DotSyntaxError("the keyword %r is used as an unquoted ID" % tok[1])
         return tok[0] in ('id', 'str')
 
     def parse(self):
